@@ -82,10 +82,11 @@ static uint32_t rn(uint32_t n) { return n > 1 ? (uint32_t)(rnd() % n) : 0; }
 enum { K_INT, K_U8, K_FLOAT, K_BOOL, K_STRING, K_ARRAY, K_STRUCT, NKINDS };
 static const char *kname[] = { "int", "u8", "float", "bool", "string", "array", "struct" };
 static const ElementType ktype[] = { ELEM_INT, ELEM_U8, ELEM_FLOAT, ELEM_BOOL, ELEM_STRING, ELEM_ARRAY, ELEM_STRUCT };
-static const int SSIZES[] = { 1, 4, 8, 12, 24 };
+static const int SSIZES[] = { 1, 4, 8, 12, 24, 72, 200 };
+#define NSSIZES 7
 #define MAXA 6
-#define MAXLEN 400
-typedef struct MVal { int64_t i; double f; const char *s; void *a; uint8_t st[24]; } MVal;
+#define MAXLEN 160
+typedef struct MVal { int64_t i; double f; const char *s; void *a; uint8_t st[200]; } MVal;
 typedef struct MArr { bool live; int kind, ssize, rc; DynArray *d; int len; MVal v[MAXLEN]; } MArr;
 static MArr A[MAXA];
 static const char *STRS[] = { "", "a", "hello", "nanolang", "x y z", "0123456789abcdef0123456789abcdef" };
@@ -95,17 +96,19 @@ static void *ballast[4]; static int nballast;
 enum { OP_NEW, OP_NEWCAP, OP_PUSH, OP_POP, OP_GET, OP_SET, OP_INSERT, OP_REMOVE, OP_CLEAR, OP_RESERVE, OP_CLONE, OP_RETAIN, OP_RELEASE, OP_BALLAST, OP_COLLECT, OP_GCSTR,
        OP_LI_NEW, OP_LI_PUSH, OP_LI_POP, OP_LI_INSERT, OP_LI_REMOVE, OP_LI_SET, OP_LI_CLEAR, OP_LI_FREE,
        OP_LS_NEW, OP_LS_PUSH, OP_LS_POP, OP_LS_INSERT, OP_LS_REMOVE, OP_LS_SET, OP_LS_CLEAR, OP_LS_FREE,
-       OP_NS_NEW, OP_NS_CONCAT, OP_NS_SUBSTR, OP_NS_CLONE, OP_NS_RESERVE, OP_NS_FREE, NOPS };
+       OP_NS_NEW, OP_NS_CONCAT, OP_NS_SUBSTR, OP_NS_CLONE, OP_NS_RESERVE, OP_NS_FREE, OP_NS_UTF8, OP_GC_RESTART, OP_GCSTR_HOLD, OP_GCSTR_DROP, NOPS };
 static const char *opname[] = { "new", "new_with_capacity", "push", "pop", "get", "set", "insert", "remove_at", "clear", "reserve", "clone", "retain", "release", "ballast", "collect", "gc_string",
        "li_new", "li_push", "li_pop", "li_insert", "li_remove", "li_set", "li_clear", "li_free",
        "ls_new", "ls_push", "ls_pop", "ls_insert", "ls_remove", "ls_set", "ls_clear", "ls_free",
-       "ns_new", "ns_concat", "ns_substring", "ns_clone", "ns_reserve", "ns_free" };
+       "ns_new", "ns_concat", "ns_substring", "ns_clone", "ns_reserve", "ns_free", "ns_utf8", "gc_restart", "gc_string_hold", "gc_string_drop" };
 /* generated list types and byte strings: two slots each, modelled by plain C arrays */
 #define LMAX 300
 static struct { List_int *l; int n; int64_t v[LMAX]; } LI[2];
 static struct { List_string *l; int n; const char *v[LMAX]; } LS[2];
 static struct { nl_string_t *s; size_t n; uint8_t v[4096]; } NS[3];
 static void lists_check(const char *after, int opi);
+static char *held[3]; static size_t heldlen[3];
+static bool utf8_ref(const uint8_t *d, size_t n, long *count);
 typedef struct Op { int op, arr, kind; long x, y; } Op;
 typedef struct Plan { uint64_t seed; int junk, movere, stale, thresh; int nops; Op ops[256]; } Plan;
 
@@ -150,6 +153,10 @@ static void check_all(const char *after, int opi) {
         if (m->kind != K_STRUCT || m->len > 0) if (dyn_array_get_elem_type(d) != ktype[m->kind]) { viol("elem-type-differs", "after op %d (%s): array %d element type %d, model %s", opi, after, a, (int)dyn_array_get_elem_type(d), kname[m->kind]); return; }
         for (int i = 0; i < m->len; i++) if (!valeq(m->kind, m->ssize, &m->v[i], d, i)) { viol("contents-differ", "after op %d (%s): array %d (%s) element %d differs from the model list", opi, after, a, kname[m->kind], i); return; }
     }
+    for (int k = 0; k < 3; k++) if (held[k]) {
+        if (strlen(held[k]) != heldlen[k]) { viol("gc-string-corrupted", "after op %d (%s): held gc string %d has length %zu, model %zu", opi, after, k, strlen(held[k]), heldlen[k]); return; }
+        for (size_t j = 0; j < heldlen[k]; j++) if (held[k][j] < 'a' || held[k][j] > 'z') { viol("gc-string-corrupted", "after op %d (%s): held gc string %d byte %zu clobbered", opi, after, k, j); return; }
+    }
     GCStats st = gc_get_stats();
     if ((int)st.num_objects != live_objects) viol("live-object-count-differs", "after op %d (%s): gc reports %zu live objects, model %d", opi, after, st.num_objects, live_objects);
 }
@@ -178,10 +185,20 @@ static void lists_check(const char *after, int opi) {
         if (nl_string_length(NS[k].s) != NS[k].n) { viol("string-length-differs", "after op %d (%s): nl_string %d length %zu, model %zu", opi, after, k, nl_string_length(NS[k].s), NS[k].n); return; }
         for (size_t j = 0; j < NS[k].n; j++) if ((uint8_t)nl_string_byte_at(NS[k].s, j) != NS[k].v[j]) { viol("string-contents-differ", "after op %d (%s): nl_string %d byte %zu differs from the model", opi, after, k, j); return; } }
 }
+static bool utf8_ref(const uint8_t *d, size_t n, long *count) {
+    size_t i = 0; long c = 0;
+    while (i < n) {
+        uint8_t b = d[i]; int l = (b & 0x80) == 0 ? 1 : (b & 0xE0) == 0xC0 ? 2 : (b & 0xF0) == 0xE0 ? 3 : (b & 0xF8) == 0xF0 ? 4 : 0;
+        if (!l || i + (size_t)l > n) return false;
+        for (int j = 1; j < l; j++) if ((d[i + (size_t)j] & 0xC0) != 0x80) return false;
+        i += (size_t)l; c++;
+    }
+    *count = c; return true;
+}
 static int pick_live(long x) { int c = 0; for (int i = 0; i < MAXA; i++) c += A[i].live; if (!c) return -1; int k = (int)((unsigned long)x % (unsigned)c); for (int i = 0; i < MAXA; i++) if (A[i].live && k-- == 0) return i; return -1; }
 
 static void run_plan(Plan *P) {
-    memset(A, 0, sizeof A); memset(LI, 0, sizeof LI); memset(LS, 0, sizeof LS); memset(NS, 0, sizeof NS); live_objects = 0; nballast = 0; vsig[0] = vmsg[0] = 0; n_checks = 0;
+    memset(held, 0, sizeof held); memset(A, 0, sizeof A); memset(LI, 0, sizeof LI); memset(LS, 0, sizeof LS); memset(NS, 0, sizeof NS); live_objects = 0; nballast = 0; vsig[0] = vmsg[0] = 0; n_checks = 0;
     junk_byte = P->junk; move_realloc = P->movere; stale_recycle = P->stale; ncache = 0;
     hdr_obj_size = sizeof(GCHeader) + sizeof(DynArray);
     gc_init();
@@ -194,7 +211,7 @@ static void run_plan(Plan *P) {
         switch (o->op) {
         case OP_NEW: case OP_NEWCAP:
             if (m->live) break;
-            memset(m, 0, sizeof *m); m->kind = o->kind % NKINDS; m->ssize = SSIZES[(unsigned long)o->y % 5];
+            memset(m, 0, sizeof *m); m->kind = o->kind % NKINDS; m->ssize = SSIZES[(unsigned long)o->y % NSSIZES];
             m->d = o->op == OP_NEW ? dyn_array_new(ktype[m->kind]) : dyn_array_new_with_capacity(ktype[m->kind], o->x % 64);
             if (!m->d) break;
             m->live = true; m->rc = 1; live_objects++;
@@ -210,6 +227,7 @@ static void run_plan(Plan *P) {
             break; }
         case OP_POP: {
             int t = pick_live(o->arr); if (t < 0) break; m = &A[t];
+            for (int rep = 0, reps = 1 + (int)(o->y % 25); rep < reps && !vsig[0]; rep++) {   /* drains are common: fill-and-drain cycles */
             bool ok = false;
             switch (m->kind) {
             case K_INT: { int64_t g = dyn_array_pop_int(m->d, &ok); if (ok && g != m->v[m->len - 1].i) viol("pop-wrong-value", "op %d: pop_int returned a value that is not the last element", i); break; }
@@ -218,10 +236,12 @@ static void run_plan(Plan *P) {
             case K_BOOL: { bool g = dyn_array_pop_bool(m->d, &ok); if (ok && g != (bool)m->v[m->len - 1].i) viol("pop-wrong-value", "op %d: pop_bool", i); break; }
             case K_STRING: { const char *g = dyn_array_pop_string(m->d, &ok); if (ok && g != m->v[m->len - 1].s) viol("pop-wrong-value", "op %d: pop_string", i); break; }
             case K_ARRAY: { DynArray *g = dyn_array_pop_array(m->d, &ok); if (ok && g != m->v[m->len - 1].a) viol("pop-wrong-value", "op %d: pop_array", i); break; }
-            case K_STRUCT: { uint8_t buf[24]; if (m->len == 0) break; dyn_array_pop_struct(m->d, buf, (size_t)m->ssize, &ok); if (ok && memcmp(buf, m->v[m->len - 1].st, (size_t)m->ssize)) viol("pop-wrong-value", "op %d: pop_struct", i); break; }
+            case K_STRUCT: { uint8_t buf[200]; if (m->len == 0) break; dyn_array_pop_struct(m->d, buf, (size_t)m->ssize, &ok); if (ok && memcmp(buf, m->v[m->len - 1].st, (size_t)m->ssize)) viol("pop-wrong-value", "op %d: pop_struct", i); break; }
             }
             if (ok != (m->len > 0) && m->kind != K_STRUCT) viol("pop-success-flag", "op %d: pop success=%d on array of length %d", i, ok, m->len);
             if (ok) m->len--;
+            if (!ok) break;
+            }
             break; }
         case OP_GET: { int t = pick_live(o->arr); if (t < 0) break; m = &A[t]; if (!m->len) break; int idx = (int)((unsigned long)o->x % (unsigned)m->len);
             if (!valeq(m->kind, m->ssize, &m->v[idx], m->d, idx)) viol("get-wrong-value", "op %d: get(%d) on array %d (%s) differs from the model", i, idx, t, kname[m->kind]); break; }
@@ -279,7 +299,14 @@ static void run_plan(Plan *P) {
         case OP_LS_SET: { int k = o->arr & 1; if (!LS[k].l || !LS[k].n) break; int idx = (int)((unsigned long)o->x % (unsigned)LS[k].n); const char *v = STRS[(unsigned long)o->y % 6]; list_string_set(LS[k].l, idx, v); LS[k].v[idx] = v; break; }
         case OP_LS_CLEAR: { int k = o->arr & 1; if (!LS[k].l) break; list_string_clear(LS[k].l); LS[k].n = 0; break; }
         case OP_LS_FREE: { int k = o->arr & 1; if (!LS[k].l) break; list_string_free(LS[k].l); LS[k].l = NULL; LS[k].n = 0; break; }
-        case OP_NS_NEW: { int k = o->arr % 3; if (NS[k].s) break; size_t n = (size_t)(o->x % 300); for (size_t j = 0; j < n; j++) NS[k].v[j] = (uint8_t)((o->y + (long)j * 7) % 256); NS[k].n = n;
+        case OP_NS_NEW: { int k = o->arr % 3; if (NS[k].s) break; size_t n = (size_t)(o->x % 300);
+            if (o->y % 3 == 0) for (size_t j = 0; j < n; j++) NS[k].v[j] = (uint8_t)((o->y + (long)j * 7) % 256);
+            else {   /* well-formed multi-byte sequences, cut at an arbitrary byte (the tail may be a truncated character) */
+                size_t j = 0; uint64_t z = (uint64_t)o->y * 2654435761u + 1;
+                while (j < n) { z ^= z << 13; z ^= z >> 7; z ^= z << 17; int l = 1 + (int)(z % 4); static const uint8_t lead[] = { 0x41, 0xC3, 0xE2, 0xF0 };
+                    NS[k].v[j++] = l == 1 ? (uint8_t)(0x20 + z % 0x5f) : lead[l - 1]; for (int q = 1; q < l && j < n; q++) NS[k].v[j++] = (uint8_t)(0x80 + (z >> (8 * q)) % 0x40); }
+            }
+            NS[k].n = n;
             NS[k].s = nl_string_new_binary(NS[k].v, n); break; }
         case OP_NS_CONCAT: { int a1 = o->arr % 3, b1 = (int)(o->x % 3), d1 = (int)(o->y % 3); if (!NS[a1].s || !NS[b1].s || NS[d1].s || NS[a1].n + NS[b1].n > 4000) break;
             NS[d1].s = nl_string_concat(NS[a1].s, NS[b1].s); memcpy(NS[d1].v, NS[a1].v, NS[a1].n); memcpy(NS[d1].v + NS[a1].n, NS[b1].v, NS[b1].n); NS[d1].n = NS[a1].n + NS[b1].n; break; }
@@ -287,6 +314,27 @@ static void run_plan(Plan *P) {
             NS[d1].s = nl_string_substring(NS[a1].s, st, ln); memcpy(NS[d1].v, NS[a1].v + st, ln); NS[d1].n = ln; break; }
         case OP_NS_CLONE: { int a1 = o->arr % 3, d1 = (int)(o->y % 3); if (!NS[a1].s || NS[d1].s) break; NS[d1].s = nl_string_clone(NS[a1].s); memcpy(NS[d1].v, NS[a1].v, NS[a1].n); NS[d1].n = NS[a1].n; break; }
         case OP_NS_RESERVE: { int a1 = o->arr % 3; if (!NS[a1].s) break; if (o->x & 1) nl_string_reserve(NS[a1].s, (size_t)(o->y % 5000)); else nl_string_shrink_to_fit(NS[a1].s); break; }
+        case OP_NS_UTF8: { int a1 = o->arr % 3; if (!NS[a1].s) break;
+            long cnt = 0; bool want = utf8_ref(NS[a1].v, NS[a1].n, &cnt);
+            bool got = nl_string_validate_utf8(NS[a1].s);
+            if (got != want) { viol("utf8-validity-differs", "op %d: nl_string_validate_utf8 says %d, reference says %d for a %zu-byte string", i, got, want, NS[a1].n); break; }
+            if (want) {
+                if (nl_string_utf8_length(NS[a1].s) != cnt) { viol("utf8-length-differs", "op %d: utf8_length %lld, reference %ld", i, (long long)nl_string_utf8_length(NS[a1].s), cnt); break; }
+                if (cnt > 0) { (void)nl_string_utf8_char_at(NS[a1].s, (size_t)(o->x % cnt)); (void)nl_string_utf8_char_at(NS[a1].s, (size_t)(cnt - 1));
+                    nl_string_t *sub = nl_string_utf8_substring(NS[a1].s, (size_t)(o->x % cnt), (size_t)(o->y % (cnt + 1))); if (sub) nl_string_free(sub); }
+            }
+            break; }
+        case OP_GC_RESTART: {
+            /* shut the collector down (it frees everything that is still alive) and start a new session in the same process */
+            gc_shutdown();
+            for (int k = 0; k < MAXA; k++) A[k].live = false;
+            for (int k = 0; k < 3; k++) held[k] = NULL;
+            nballast = 0; live_objects = 0; ncache = 0;
+            gc_init(); if (P->thresh) gc_set_threshold((size_t)P->thresh);
+            break; }
+        case OP_GCSTR_HOLD: { int k = o->arr % 3; if (held[k]) break; size_t n = (o->x % 4 == 0) ? 0 : (size_t)(o->x % 90);
+            held[k] = gc_alloc_string(n); if (!held[k]) break; for (size_t j = 0; j < n; j++) held[k][j] = (char)('a' + (j + (size_t)o->y) % 26); held[k][n] = 0; heldlen[k] = n; live_objects++; break; }
+        case OP_GCSTR_DROP: { int k = o->arr % 3; if (!held[k]) break; gc_release(held[k]); held[k] = NULL; live_objects--; break; }
         case OP_NS_FREE: { int a1 = o->arr % 3; if (!NS[a1].s) break; nl_string_free(NS[a1].s); NS[a1].s = NULL; NS[a1].n = 0; break; }
         }
         if (!vsig[0] && o->op >= OP_LI_NEW) lists_check(opname[o->op], i);
